@@ -21,6 +21,8 @@ def main():
     if "--checks" in sys.argv:
         checks = sys.argv[sys.argv.index("--checks") + 1].split(",")
     sid = "%s-%s" % (prop, letter)
+    if "--id" in sys.argv:
+        sid = sys.argv[sys.argv.index("--id") + 1]
     scratch = "/tmp/verif-seedcheck-%s/repo" % sid
     tgt = "/tmp/verif-seedcheck-target"   # shared cargo target dir for the suite
     shutil.rmtree(os.path.dirname(scratch), ignore_errors=True)
